@@ -310,7 +310,7 @@ impl<'a, 'e, T: IteTable<'a, BddPtr<'a>> + Default> Sw<'a, 'e, T> {
         for (v, x) in a.iter().enumerate() {
             wide[self.lab[v]] = *x;
         }
-        (PartialModel::from_assignments(&wide), a)
+        (crate::props::wparams::build_model(&wide, code + self.cfg.issue), a)
     }
 
     /// issue one operation on the real builder and check it
@@ -982,7 +982,7 @@ fn r1_run<'a, T: IteTable<'a, BddPtr<'a>> + Default>(
                     asg.push(e);
                     c /= 3;
                 }
-                let m = PartialModel::from_assignments(&asg);
+                let m = crate::props::wparams::build_model(&asg, *code);
                 (guarded(|| b.condition_model(p, &m)), want)
             }
             A1::NewVar(pol) => {
